@@ -140,6 +140,11 @@ func LoadContentsFromFile(ctx context.Context, tx *Transaction, fpath parser.Ide
 		return content, NewFileNotExistError(fpath)
 	}
 
+	// The file container is shared by every goroutine of the transaction and is not synchronised by itself:
+	// like the table loaders, register and release the handler under the view-loading mutex.
+	tx.viewLoadingMutex.Lock()
+	defer tx.viewLoadingMutex.Unlock()
+
 	h, err := tx.FileContainer.CreateHandlerWithoutLock(ctx, p, tx.WaitTimeout, tx.RetryDelay)
 	if err != nil {
 		return content, ConvertFileHandlerError(err, fpath)
